@@ -386,3 +386,16 @@ impl Metainfo {
         }
     }
 }
+
+#[cfg(feature = "verif")]
+impl Metainfo {
+    /// The parsed fields as they are stored (verification harness only): name, piece length and
+    /// (length, path) of every file.
+    pub fn verif_fields(&self) -> (&String, u64, Vec<(u64, &String)>) {
+        (
+            &self.name,
+            self.piece_length,
+            self.files.iter().map(|f| (f.length, &f.path)).collect(),
+        )
+    }
+}
